@@ -73,18 +73,20 @@ func (d *DefaultMetricLogWriter) Write(ts uint64, items []*base.MetricItem) erro
 		// ignore
 		return nil
 	}
-	if timeSec > d.latestOpSec {
-		pos, err := util.FilePosition(d.curMetricFile)
-		if err != nil {
-			return errors.Wrap(err, "cannot get current pos of the metric file")
+	if timeSec > d.latestOpSec && d.isNewDay(d.latestOpSec, timeSec) {
+		if err := d.rollToNextFile(ts); err != nil {
+			return errors.Wrap(err, "failed to roll the metric log")
 		}
+	}
+	pos, err := util.FilePosition(d.curMetricFile)
+	if err != nil {
+		return errors.Wrap(err, "cannot get current pos of the metric file")
+	}
+	// Every second is indexed in the file that holds its first line of that file: a new second,
+	// and also the first lines of a new file (after a roll or right after the writer was created).
+	if timeSec > d.latestOpSec || pos == 0 {
 		if err = d.writeIndex(timeSec, pos); err != nil {
 			return errors.Wrap(err, "cannot write metric idx file")
-		}
-		if d.isNewDay(d.latestOpSec, timeSec) {
-			if err = d.rollToNextFile(ts); err != nil {
-				return errors.Wrap(err, "failed to roll the metric log")
-			}
 		}
 	}
 	// Write and flush
